@@ -13,10 +13,7 @@ tvars == <<cfg, tid, l, cur, emit, logd, bos, absS>>
 
 MergeD(c, d) == [k \in DOMAIN c |-> IF k \in DOMAIN d THEN d[k] ELSE c[k]]
 
-(* executions under the permuting environment insert new events at random  *)
-(* positions among the events of their instant: compare the queue as a set *)
-Norm(T) == [T EXCEPT !.queue = IF cfg.perm = {} THEN NoStop(@) ELSE SeqToSet(NoStop(@)),
-                     !.sch.status = ""]
+Norm(T) == [T EXCEPT !.queue = NoStop(@), !.sch.status = ""]
 MatchS(T, B) == Norm(T) = Norm(B)
 StatusOK(A, B) == A.sch.status = "DELAYED" => B.sch.status = "DELAYED"
 
@@ -34,9 +31,8 @@ SuccsT(A, i, rec) ==
         P == Pop(A, i)
     IN IF pid[1] = "AT" /\ Len(rec.prop) = 1 /\ P.procs[pid].ph # "done"
        THEN LET prop == LoggedProp(rec)
-            IN UNION {{ATStep(P, pid, pv, prop, ord, FALSE) :
-                         ord \in UNION {Orders(W) : W \in Winners(ApplyProv(P, pid[2], pv), prop)}}
-                      : pv \in ProvOptions(P, pid[2])}
+            IN {ATStep(P, pid, pv, prop, ord, FALSE) :
+                  pv \in ProvOptions(P, pid[2]), ord \in Orders(pid[2], DOMAIN prop)}
        ELSE Succs(A, i)
 
 (* is the logged proposal one the policy's contract allows? *)
